@@ -79,6 +79,21 @@ CLAIMED = {
         design_ref='DESIGN.md 5 (C05)',
         note=TRUST + '; cvc5 1.0 for the value identities (SAT back ends cannot equate two multiplier circuits); sin, cos, sqrt, atan2, acos are uninterpreted symbols with |S|,|C| <= 1, d >= 0, atan2 in [-pi, pi]; the PointData map is a three-element array of points',
         technique='contract-based deductive verification (CBMC dfcc function + loop contracts on the extracted linearisation code; hand-derived Jacobian as postcondition)'),
+    'C10': dict(
+        category='proof',
+        text='Partial: the DISCRETE mechanisms of the property are under contract, its numerical core is not. (proof) Cluster::activeCov returns '
+             'exactly the sub-matrix of the currently active observations: dimension = live sum of active dimensions (independent of the '
+             'cached counters), band = min(band, N-1), every result cell inside the band equals the full-matrix element at the positions of '
+             'the two active components, every dropped cell is a structural zero of the full band; memory safe for all list lengths <= 1e6, '
+             'all active/passive patterns, dimensions 1..3, any band; Cluster::update counts observations, dimension and stored elements; '
+             'GKFparser::process_cov accepts exactly usable (dim, band) pairs and refuses the rest with a located error, finish_cov writes '
+             'every position of the announced band exactly once in the documented order and refuses too few / too many / malformed elements. '
+             'NOT decided: equivalence of the cluster with its whitened reformulation and agreement between algorithms (numerical); '
+             'positive-definiteness tests and the dim == number-of-observations test of finish_obs / finish_hdiffs / Homogenization::run '
+             '(try/catch and std containers, outside the extractor: their repairs are demonstrated natively only, demos/C10_*).',
+        design_ref='DESIGN.md 5 (C10), 10.8',
+        note=TRUST + '; std::list iteration of the cluster is lowered by unit rules to a walk over an array of observation records (loop bodies are the repository text); CovMat element access enters through the index contracts verified in unit matvec_index; observation dimension() is a per-object constant 1..3 (checked syntactically on every run)',
+        technique='contract-based deductive verification (CBMC dfcc function + loop contracts with ghost prefix sums; z3 integer lemmas for the stored-element count)'),
     'C09': dict(
         category='proof',
         text='LocalNetwork statistics under contract (extracted bodies, stubs for the adjustment stages, sqrt/atan2/Normal/Student): '
@@ -149,7 +164,6 @@ NA = {
     'C06': 'whole-program convergence of iterated linearisation and approximate-coordinate search; no per-function contract carries it',
     'C07': 'metamorphic relation between two complete runs on two input files; not expressible as a function contract',
     'C08': 'relation between runs with different constraint sets, numerical',
-    'C10': 'equivalence of a correlated cluster with its whitened reformulation is numerical/relational; the discrete code (Cluster::activeCov, parser checks) is std::list/std::string code outside the extractor subset',
     'C13': 'export -> parse -> adjust fixed point is a whole-program history property',
     'C14': 'equality with the run on the reduced input relates two complete runs; reporting completeness is about text output',
     'C17': 'accuracy of exp/log/pow based approximations; CBMC has no semantics for transcendental functions, an assumed contract would assume the property',
